@@ -240,7 +240,7 @@ fn judge(report: &mut Report, o: &Outcome, kind: &str, cycle: Option<(&str, bool
 fn replay_one(report: &mut Report, v: &Value) {
     let scratch = Scratch::new("c17r");
     let sp = scratch.file(v["schema"].as_str().unwrap_or(""), v["schema_ext"].as_str().unwrap_or("graphql"));
-    let o = Pool::default().run(&[Job { schema_path: sp, query: QuerySrc::Text(v["document"].as_str().unwrap_or("").into()), opts: Opts::default() }]);
+    let o = Pool::default().run(&[Job { schema_path: sp, query: QuerySrc::Text(v["document"].as_str().unwrap_or("").into()), opts: Opts::default(), cwd: None }]);
     let cyc_parent = v["cycle"]["parent"].as_str().map(|s| s.to_string());
     let cyc = cyc_parent.as_deref().map(|p| (p, v["cycle"]["has_typename"].as_bool().unwrap_or(false)));
     report.nontrivial.insert(fnv_str(&[v["document"].as_str().unwrap_or("")]));
@@ -268,7 +268,7 @@ fn fuzz_campaign(report: &mut Report) {
                 let adv = gen_adversarial(&mut t, &art, &mut stats);
                 let scratch = Scratch::new("c17f");
                 let sp = scratch.file(&adv.schema, adv.ext);
-                let o = Pool::default().run(&[Job { schema_path: sp, query: QuerySrc::Text(adv.query.clone()), opts: Opts::default() }]);
+                let o = Pool::default().run(&[Job { schema_path: sp, query: QuerySrc::Text(adv.query.clone()), opts: Opts::default(), cwd: None }]);
                 judge(report, &o[0], adv.kind, adv.cycle, &adv.schema, adv.ext, &adv.query, &art);
             }
         }
@@ -293,7 +293,7 @@ pub fn run(report: &mut Report, replay: Option<&Value>) {
         let mut t = Tape::new(tp);
         let adv = gen_adversarial(&mut t, &tp[tp.len().min(16)..], &mut stats);
         let sp = scratch.file(&adv.schema, adv.ext);
-        jobs.push(Job { schema_path: sp, query: QuerySrc::Text(adv.query.clone()), opts: Opts::default() });
+        jobs.push(Job { schema_path: sp, query: QuerySrc::Text(adv.query.clone()), opts: Opts::default(), cwd: None });
         metas.push((tp.clone(), adv));
     }
     let outs = Pool::default().run(&jobs);
